@@ -108,11 +108,73 @@ def run_seq(sc):
     return results
 
 
+def run_subdir(sc):
+    """kind 'subdir': a script played in this fresh process BEFORE anything else of pypyr is imported - the order
+    of imports, configuration and first pipeline load is the point.
+      {"op": "import", "module": m}   importlib.import_module(m)            (what a client / the command line imports first)
+      {"op": "init"}                  pypyr.config.config.init()            (reads the config files of the scenario)
+      {"op": "set", "subdir": s}      config.pipelines_subdir = s
+      {"op": "cli", "name": n}        pypyr.cli.main([n])                   (does its own config.init())
+      {"op": "run", "name": n}        pypyr.pipelinerunner.run(n)
+    -> results: one {trail, err, msg, subdir_config} per cli / run op; loader_imported: after every import op, whether
+       pypyr.loaders.file is in sys.modules."""
+    import importlib
+    import io
+    import pypyr
+    out = {'cwd': str(Path.cwd()), 'pypyr_file': pypyr.__file__, 'builtin': str(Path(pypyr.__file__).parent / 'pipelines'),
+           'results': [], 'loader_imported': []}
+    import vtrail
+    for op in sc['script']:
+        k = op['op']
+        if k == 'import':
+            importlib.import_module(op['module'])
+            out['loader_imported'].append([op['module'], 'pypyr.loaders.file' in sys.modules])
+            continue
+        from pypyr.config import config
+        if k == 'init':
+            config.init()
+            continue
+        if k == 'set':
+            config.pipelines_subdir = op['subdir']
+            continue
+        del vtrail.T[:]
+        o = {'err': None, 'msg': None}
+        try:
+            if k == 'cli':
+                import pypyr.cli
+                keep = sys.stderr
+                sys.stderr = io.StringIO()
+                try:
+                    rc = pypyr.cli.main([op['name']])
+                    text = sys.stderr.getvalue()
+                finally:
+                    sys.stderr = keep
+                if rc:
+                    tail = text[text.rfind('\x1b[91m') + 5:] if '\x1b[91m' in text else text
+                    tail = tail.replace('\x1b[0;0m', '').strip()
+                    o['err'] = tail.split(': ', 1)[0] or f'exit-{rc}'
+                    o['msg'] = tail.split(': ', 1)[-1]
+            else:
+                import pypyr.pipelinerunner
+                pypyr.pipelinerunner.run(op['name'])
+        except Exception as e:  # noqa: BLE001
+            o['err'] = type(e).__name__
+            o['msg'] = str(e)
+        o['trail'] = list(vtrail.T)
+        o['subdir_config'] = config.pipelines_subdir
+        out['results'].append(o)
+    out['config_cwd'] = str(config.cwd) if 'config' in dir() else out['cwd']
+    return out
+
+
 def main():
     sc = json.loads(Path(sys.argv[1]).read_text())
     sys.path.insert(0, sc['repo'])
     if sc.get('lib'):
         sys.path.insert(1, sc['lib'])
+    if sc['kind'] == 'subdir':
+        print(json.dumps(run_subdir(sc)))
+        return
     import pypyr.loaders.file as fl
     out = {'cwd': str(Path.cwd()), 'config_cwd': str(fl.config.cwd), 'builtin': str(fl.builtin_pipelines_dir),
            'pypyr_file': fl.__file__}
